@@ -13,18 +13,22 @@ SES = ("Session properties are checked on the abstract machine lean/Simpleline/M
 CLAIMED_SESSION = {
  "C01": ("Theorems: the queue is a stable priority queue (put places a signal behind everything at least as urgent), every queue of every reachable configuration is sorted, every take (main loop, waiting and non-waiting "
          "processing) removes the head of the active queue, nothing else removes or reorders entries, each queue equals the replay of the history's enq/take events (C01_history). Correspondence: loop programs with 4..40 "
-         "equal-priority signals, urgent arrivals mid-batch, nested loops; oracle: most-urgent-then-oldest at every dispatch, per level.", "7 C01", SES + "A-PQ (heapq contract) is an assumption."),
+         "equal-priority signals, urgent arrivals mid-batch, nested loops; oracle: most-urgent-then-oldest at every dispatch, per level. Props/C01b: CPython's heapq modelled step for step (Model/Heapq.lean) keeps heap property and multiset and pops the minimum; EventQueue over it refines the "
+         "machine's sorted-list queue for every operation sequence (C01b_sequence_refines); the real EventQueue's heap array is compared with the model's after every call.", "7 C01, 17",
+         SES + "The former assumption A-PQ (heapq contract) is discharged by Props/C01b; what remains trusted there is that CPython's C heapq is Lib/heapq.py (checked by the heap-array comparison)."),
  "C02": ("Theorems: every handler call is for a handler registered for exactly the signal's class with its data; calls come only from the dispatch instruction visiting the live list in index order; an ordinary exception unwinds "
          "exactly to the handler's catcher, enqueues exactly one exception signal of priority -20 and the next handler runs; -20 overtakes everything less urgent; the kill path. Correspondence: raising subsets, derived signal "
          "classes, closes before raises; oracle: per-signal handler sequences, exceptions surface, kill = status 1 + blank line + stack dump + traceback.", "7 C02",
          SES + "The trace-level 'exactly once per completed dispatch' clause is proved at instruction level (dispatch index order) and checked on sessions by the oracle."),
  "C03": ("Theorems: routing (innermost level owning the source, else the active one), active = top level, every take is from the top level, signals held in non-top levels are never removed or reordered (multi-step: until taken), "
          "source sets of non-active levels are fixed, open/close effects; and (Props/C03b, global code-shape invariant) the _mainloop activation of a level returns only after the level was closed, the caller's continuation is untouched "
-         "and resumed (under the decidable history hypotheses WFClose/WFDrain, shown necessary by kernel-checked counterexamples = known finding K1). Correspondence/oracle: routing recomputed from the API log, levels at return of execute_new_loop.",
-         "7 C03", SES + "K1 (second close before the innermost _mainloop regained control) is a known finding, excluded by WFClose/WFDrain; classified per case by the model's history flags."),
+         "and resumed (under the decidable history hypotheses WFClose/WFDrain, shown necessary by kernel-checked counterexamples = known finding K1). Correspondence/oracle: routing recomputed from the API log, levels at return of execute_new_loop. Props/C03c: the EventQueue object's source API (add / remove / contains / "
+         "enqueue_if_source_belongs) is a finite set with the documented error, conditional puts enqueue iff registered, and the heap refinement of C01b extends to all seven calls; compared with the real class on call sequences.",
+         "7 C03, 17", SES + "K1 (second close before the innermost _mainloop regained control) is a known finding, excluded by WFClose/WFDrain; classified per case by the model's history flags."),
  "C04": ("Theorems: refinement to an ideal stack (every transition changes the stack exactly as one ideal operation or not at all; replace keeps the modal flag; fresh entry identities), entries beneath keep their order, a screen is drawn "
-         "only while it is the top entry (the entry itself, by identity), the drawn entry is the ideal stack's top in the history, empty stack ends. Correspondence/oracle: one ideal operation between observations, API operations' ideal effect, drawn = top.",
-         "7 C04", SES + "The refresh-of-a-covered-screen case (setup changing the stack) is stated as it is (C04_refresh_top) with its counterexample."),
+         "only while it is the top entry (the entry itself, by identity), the drawn entry is the ideal stack's top in the history, empty stack ends. Correspondence/oracle: one ideal operation between observations, API operations' ideal effect, drawn = top, a top entry leaves only through closed() or a failed setup. Props/C04b: the ScreenStack class "
+         "under arbitrary call sequences refines an ideal list (pop-after-append, add-first keeps the top, order beneath, size, dump order); compared with the real class.",
+         "7 C04, 17", SES + "The refresh-of-a-covered-screen case (setup changing the stack) is stated as it is (C04_refresh_top) with its counterexample."),
  "C05": ("Theorems (Props/C05 over the code-shape invariant of Lemmas/Shape*): modal entries correspond to nested levels; push_screen_modal returns only after its level was closed, which only the close / failed setup of the modal entry or its replacement requests; "
          "while it is open nothing beneath is refreshed or drawn and the entries beneath stay in place (under WFClose/WFDrain/WFQuiet, shown necessary). Correspondence/oracle: events between call and return of push_screen_modal, stack at return.",
          "7 C05", SES + "K1 and K2 (close_loop drains pending signals of the closing level: the parent is processed inside the nested loop) are known findings, classified by the model's history flags."),
@@ -37,9 +41,11 @@ CLAIMED_SESSION = {
          "refresh before show (trace and log), failed setup is discarded without refresh/draw/prompt, #closed callbacks + pending = #close operations. Correspondence/oracle: per-screen lifecycle checks with nested activations.", "7 C08",
          SES + "Known finding K3: a setup() that pushes another screen and then fails gets the pushed screen discarded instead."),
  "C09": ("Theorems: after force-quit no handler call is ever added, enqueues are discarded, execute_new_loop is a no-op, loop tests exit; an exit request drops every pending instruction of every depth up to run()'s catcher; the quit callback is logged at most once "
-         "with the registered argument; a returned run contains an exit or force-quit event; run() refuses an empty stack unless configured. Correspondence/oracle: stop requests at every depth/position, last modal screen closing, run() returns.", "7 C09", SES),
+         "with the registered argument; a returned run contains an exit or force-quit event; run() refuses an empty stack unless configured. Correspondence/oracle: stop requests at every depth/position, last modal screen closing, run() returns. The force-quit clause is also proved for the GLib machine (Props/C20b, C20b_force_quit_silences) and checked on the real "
+         "GLib-based loop over the stand-in (finding F12, fixed).", "7 C09, 17", SES),
  "C10": ("Theorems: a released wait ends only after a take of exactly the awaited class since it began (any nesting) or unreleased only when its level was stopped; tickets start unmarked; one dispatch marks all waiters of the class; a marked ticket returns at the next check "
-         "without another take; the non-waiting form takes one priority, never blocks, leaves the queue unchanged on a differing head. Correspondence/oracle: nested waits, same-named distinct classes, prompt return, single priority.", "7 C10", SES),
+         "without another take; the non-waiting form takes one priority, never blocks, leaves the queue unchanged on a differing head. Correspondence/oracle: nested waits, same-named distinct classes, prompt return, single priority. Props/C10b: the TicketMachine class under arbitrary take / check / mark sequences: fresh tickets, refinement of the machine's flat ticket list "
+         "(C10b_flat_is_machine), ready iff marked since taken and not yet consumed (history form), consumed once, a mark touches only its line; compared with the real class (random and exhaustive short sequences).", "7 C10, 17", SES),
  "C17": ("Theorems: the console is only appended to; every character written is newline, blank, '=', a framework literal character or a non-control character of an application string (no CR/backspace/ESC introduced; names reach the console only in the crash dump); "
          "every draw is preceded by exactly spacer(width) unless disabled; every written chunk (separator, window lines, prompts) has lines within the width at every width; the crash dump is the only exception (shown necessary). Correspondence: exact byte stream; oracle: regex over raw stdout.",
          "7 C17", SES + "Partial in the schedules dimension: the reader's prompt order relative to main-thread output is pinned by the harness."),
@@ -50,7 +56,8 @@ CLAIMED_SESSION = {
          "7 C19", "Trusted: Lean kernel + axioms as printed; the thread adapter (harness-side logging subclasses of internals, cooperative locks, sys.settrace scheduler). A-ATOM: switches between source lines only, never inside queue.py. Bytecode-level and free-threaded interleavings are outside the claim."),
  "C20": ("Theorem (lean/Simpleline/Model/GLoop.lean): on one level, for every state-passing handler program, on calm runs the GLib batch discipline and the MainLoop stable-priority discipline dispatch the same signals in the same order through the same program states; the need for Calm is a kernel-checked counterexample (G1). "
          "Correspondence: both Lean disciplines against the two real loops on flat programs; differential run of every loop/app/tame case on the real MainLoop and the real GLibEventLoop over a GLib stand-in, with Calm evaluated by the Lean machine; divergences on non-calm runs are known findings G1-G4.",
-         "7 C20", "PARTIAL by construction: GLib is not installed, GLibEventLoop runs on harness/impl/fakegi (a stand-in written from the GLib docs, fidelity unverifiable here); the theorem covers the loop-level scheduling core on one level under Calm; nesting, waits, exceptions and the application layer are covered by the differential check only."),
+         "7 C20, 17", "Props/C20b (Model/GMachine.lean: GLibEventLoop over GLib main contexts under the same scheduler / input pipeline, compared with the real glib_event_loop.py over the stand-in on every non-flat case of every run): "
+         "force-quit silences, calls only of registered handlers from the list snapshotted at enqueue, a batch = the attach-order ready sources of the least priority present. PARTIAL by construction: GLib is not installed, GLibEventLoop runs on harness/impl/fakegi (a stand-in written from the GLib docs, fidelity unverifiable here); the theorem covers the loop-level scheduling core on one level under Calm; nesting, waits, exceptions and the application layer are covered by the differential check only."),
 }
 CLAIMED = {
  "C11": ("Theorems for every CharClass, text and width >= 1 over the Lean model of textwrap.wrap + Widget._wrap_words + the typewriter: width, conservation of "
@@ -58,8 +65,9 @@ CLAIMED = {
          "exhaustive small strings + random texts through TextWidget.render and textwrap.wrap; oracle recomputes the clauses (incl. an independent greedy reference) on the implementation.",
          "7 C11", TB + "A-TW (textwrap semantics) and the per-case character classes are assumptions exercised, not proved. The 'exactly greedy' clause is proved as structure (C11_breaks, C11_no_empty_line) and checked against an independent greedy reference only by the oracle."),
  "C12": ("Theorems over the model of UIScreen._print_widget (paging: every line once, request positions and count), WindowContainer.render (title part ++ items in order), "
-         "SeparatorWidget and Prompt (finite-map options, key-sorted listing, str format). Correspondence: exhaustive heights x lengths, prompt edit sequences, random windows.",
-         "7 C12", TB + "Heights <= 2 are outside the model (the code loops forever there). The composition into whole-screen draws through the real scheduler is covered by the session checks that share this model."),
+         "SeparatorWidget and Prompt (finite-map options, key-sorted listing, str format). Correspondence: exhaustive heights x lengths, prompt edit sequences, random windows. Props/C12b: the library's own dialogs "
+         "(ErrorDialog, PasswordDialog, YesNoDialog, HelpScreen, GetInputScreen) as views: window = title, blank line, (centred) message, one separator line; every line within the width; exact prompt strings; compared with the real classes at every width.",
+         "7 C12, 17", TB + "Heights <= 2 are outside the model (the code loops forever there). The composition into whole-screen draws through the real scheduler is covered by the session checks that share this model."),
  "C13": ("Theorems over the model of ListRowContainer/ListColumnContainer: cell bijection (row-/column-major), refusal conditions, what render draws, placement of every item and label "
          "character at the closed-form position of its cell, row heights, disjoint bands/rows, fit within the requested width. Correspondence: random flat and nested containers; oracle = closed-form placement recomputed in Python.",
          "7 C13", TB + "Placement theorems assume every drawn grid respects the width it was rendered for (hypothesis LayoutOK, discharged for TextWidget items by C11)."),
@@ -112,6 +120,6 @@ m = {"version": 1, "setup_cmd": "./setup.sh",
      "engines": [{"name": "lean-model+correspondence", "path": "lean/ harness/ check", "serves_properties": [c["property_id"] for c in checks],
                   "kind_free_text": "Lean 4 model and theorems (lean/Simpleline), native model driver (lean/Driver), Python correspondence harness and oracles (harness/)"}],
      "checks": checks, "not_applicable": na,
-     "notes": "fix: commits in /repo repair the defects recorded as 'fixed' in known_findings.json (F1-F11); see DESIGN.md sections 13 and 16."}
+     "notes": "fix: commits in /repo repair the defects recorded as 'fixed' in known_findings.json (F1-F12); see DESIGN.md sections 13, 16 and 17."}
 json.dump(m, open(os.path.join(HERE, "MANIFEST.json"), "w"), indent=1)
 print("claimed:", [c["property_id"] for c in checks], "not applicable:", [x["property_id"] for x in na])
